@@ -30,6 +30,7 @@ pub fn est_reads(ops: &[Op], rounds0: u32) -> usize {
             Op::TimerStats(_) => total += 4,
             Op::SetRounds(r) => rounds = *r as usize,
             Op::CloneThen(_) => total += per(rounds),
+            Op::CloneFromThen(_) => total += 2 * per(rounds),
             _ => {}
         }
     }
@@ -47,15 +48,15 @@ pub fn gen_rounds(rng: &mut Prng) -> Option<u8> {
 
 pub fn gen_jitter_ops(rng: &mut Prng, max_ops: u64, c16_bias: bool) -> Vec<Op> {
     let n = rng.range(1, max_ops);
-    let mix: [u32; 7] = if c16_bias {
+    let mix: [u32; 8] = if c16_bias {
         // next_u32 pairs, next_u32 followed by each other output call, clone while a half is pending
-        [8, 3, 3, 0, 1, 2, 4]
+        [8, 3, 3, 0, 1, 2, 4, 2]
     } else {
         match rng.below(4) {
-            0 => [3, 3, 3, 2, 1, 1, 1],
-            1 => [6, 1, 1, 1, 1, 1, 1],
-            2 => [1, 1, 6, 1, 1, 0, 1],
-            _ => [2, 4, 1, 1, 1, 1, 1],
+            0 => [3, 3, 3, 2, 1, 1, 1, 1],
+            1 => [6, 1, 1, 1, 1, 1, 1, 1],
+            2 => [1, 1, 6, 1, 1, 0, 1, 0],
+            _ => [2, 4, 1, 1, 1, 1, 1, 1],
         }
     };
     let mut ops = Vec::new();
@@ -75,11 +76,18 @@ pub fn gen_jitter_ops(rng: &mut Prng, max_ops: u64, c16_bias: bool) -> Vec<Op> {
                 _ => rng.range(1, 6) as u8,
             }),
             5 => Op::Fork,
-            _ => Op::CloneThen(Box::new(match rng.below(3) {
-                0 => Op::U64,
-                1 => Op::Fill(rng.range(1, 9) as u32),
-                _ => Op::U32,
-            })),
+            k => {
+                let inner = Box::new(match rng.below(3) {
+                    0 => Op::U64,
+                    1 => Op::Fill(rng.range(1, 9) as u32),
+                    _ => Op::U32,
+                });
+                if k == 6 {
+                    Op::CloneThen(inner)
+                } else {
+                    Op::CloneFromThen(inner)
+                }
+            }
         };
         ops.push(op);
     }
@@ -379,6 +387,34 @@ pub fn run_jitter_history(spec: &Spec, st: &mut Stats, cfg: &JitterRunCfg) -> Ru
                         _ => {}
                     }
                 }
+                Op::CloneFromThen(inner) => {
+                    // destination: a clone that has already been used (it holds a pending half), then
+                    // overwritten with Clone::clone_from(&current)
+                    let g = p.g.as_ref();
+                    let c = match guard(|| g.boxed_clone()) {
+                        Ok(c) => c,
+                        Err(SutFail::Panic(m)) => return Err(StepErr::End(sut_panic("clone", &m))),
+                        Err(_) => return Err(StepErr::End(RunEnd::Discard("clock_abort".into()))),
+                    };
+                    let m1 = p.m.fork(forks);
+                    forks += 1;
+                    let mut cp = Pair { g: c, m: m1 };
+                    output_step(&mut cp, &Op::U32, i, st, cfg, "clone_from.dst.")?;
+                    let src = p.g.as_ref();
+                    let dst = cp.g.as_mut();
+                    match guard(|| dst.clone_from_dyn(src)) {
+                        Ok(_) => {}
+                        Err(SutFail::Panic(m)) => return Err(StepErr::End(sut_panic("clone_from", &m))),
+                        Err(_) => return Err(StepErr::End(RunEnd::Discard("clock_abort".into()))),
+                    }
+                    cp.m = p.m.fork(forks);
+                    forks += 1;
+                    st.count("probe:clone_from");
+                    match &**inner {
+                        o @ (Op::U32 | Op::U64 | Op::Fill(_)) => output_step(&mut cp, o, i, st, cfg, "clone_from.")?,
+                        _ => {}
+                    }
+                }
                 _ => {}
             }
         }
@@ -421,7 +457,7 @@ impl Scenario for C12 {
     fn runs(&self, tier: Tier) -> u64 {
         match tier {
             Tier::Quick => 60_000,
-            Tier::Thorough => 3_000_000,
+            Tier::Thorough => 6_000_000,
         }
     }
     fn generate(&self, rng: &mut Prng, _tier: Tier) -> Spec {
@@ -431,7 +467,7 @@ impl Scenario for C12 {
         run_jitter_history(spec, st, &JitterRunCfg { prop: "C12", c16: false })
     }
     fn rule(&self) -> String {
-        "Each run: a JitterRng over a scripted clock (SimClock). The script is drawn from a per-run profile (start value, base delta, jitter amplitude) with a per-run random subset of the clock-fault catalogue (stall, const_delta, ramp, backward, jump_pos31, jump_neg31, jump_2p32, zero_reading, coarse100, tiny_var, wrap_u64, big_pause) placed inside collections at a per-run rate, optional skew between clones; rounds in 1..=255 (default 64 when unset); 1..24 operations from next_u32 / next_u64 / fill_bytes(0..40) / timer_stats(bool) / set_rounds / clone. After EVERY operation the returned value/bytes and the cumulative number of timer readings are compared with an independent executable model of the documented Jitterentropy 2.1.0 procedure run on the same readings. distinct_nontrivial = distinct (set of fault kinds whose marked reading was consumed inside the operation, rounds bucket, op kind, half flag) signatures.".into()
+        "Each run: a JitterRng over a scripted clock (SimClock). The script is drawn from a per-run profile (start value, base delta, jitter amplitude) with a per-run random subset of the clock-fault catalogue (stall, const_delta, ramp, backward, jump_pos31, jump_neg31, jump_2p32, zero_reading, coarse100, tiny_var, wrap_u64, big_pause) placed inside collections at a per-run rate, optional skew between clones; rounds in 1..=255 (default 64 when unset); 1..24 operations from next_u32 / next_u64 / fill_bytes(0..40) / timer_stats(bool) / set_rounds / clone / clone_from into a used generator. After EVERY operation the returned value/bytes and the cumulative number of timer readings are compared with an independent executable model of the documented Jitterentropy 2.1.0 procedure run on the same readings. distinct_nontrivial = distinct (set of fault kinds whose marked reading was consumed inside the operation, rounds bucket, op kind, half flag) signatures.".into()
     }
     fn assumptions(&self) -> Vec<String> {
         vec![
@@ -451,6 +487,7 @@ impl Scenario for C12 {
             "probe:negative_delta",
             "probe:timer_stats",
             "probe:fork",
+            "probe:clone_from",
             "fault:stall",
             "fault:backward",
             "fault:jump_2p32",
